@@ -21,7 +21,7 @@ Inductive expr :=
 | Fn (f : string) (l : list expr)
 | PSum (body : expr) (idx : list (string * list expr)).
 
-Definition index := (string * list expr)%type.
+Notation index := (string * list expr)%type (only parsing).
 
 Definition names (idx : list index) : list string := map fst idx.
 Definition pools (idx : list index) : list (list expr) := map snd idx.
